@@ -11,5 +11,30 @@ package service
 //@ spec wf(p *packageParse) bool = p.subcontractingRecord != nil && p.timeoutRecord != nil && forallb(k, 16, iff(has(p.subcontractingRecord, k), has(p.timeoutRecord, k)) && (has(p.timeoutRecord, k) ==> p.timeoutRecord[k] != nil && p.timeoutRecord[k].initHeader != nil && p.timeoutRecord[k].initHeader.Property != nil && len(p.subcontractingRecord[k]) == int(p.timeoutRecord[k].initHeader.SubPackageSum)))
 //@ valid *packageParse p: p != nil && wf(p)
 
+//@ spec nonempty(r [][]byte, n int) int = ite(n <= 0, 0, nonempty(r, n-1) + ite(len(r[n-1]) != 0, 1, 0))
+
+//@ func (*packageParse).add
+//@   mode contract
+//@   modifies mapof(p.subcontractingRecord), mapof(p.timeoutRecord)
+//@   requires hdr: header != nil && header.Property != nil
+//@   requires wf: wf(p)
+//@   ensures C05.wf: wf(p)
+//@   ensures C05.len: has(p.subcontractingRecord, id) && len(p.subcontractingRecord[id]) == int(header.SubPackageSum)
+
+//@ func (*packageParse).remove
+//@   mode contract
+//@   modifies mapof(p.subcontractingRecord), mapof(p.timeoutRecord)
+//@   requires wf: wf(p)
+//@   ensures C05.wf: wf(p)
+//@   ensures C05.gone: !has(p.subcontractingRecord, id) && !has(p.timeoutRecord, id)
+
 //@ func (*packageParse).completePack
 //@   ensures C05.wf: wf(p)
+//@   ensures C05.range: old(msg.JTMessage.Header.SubPackageSum) > 0 && (old(msg.JTMessage.Header.SubPackageNo) == 0 || (old(msg.JTMessage.Header.SubPackageNo) != 1 && int(old(msg.JTMessage.Header.SubPackageNo)) > old(len(p.subcontractingRecord[msg.JTMessage.Header.ID])))) ==> result1 == false && result0 == nil
+//@   ensures C05.unfragmented: old(msg.JTMessage.Header.SubPackageSum) == 0 ==> result1 == false && result0 == nil
+//@   ensures C05.flag: result1 ==> result0 != nil && result0.ExtensionFields.SubcontractComplete
+//@   ensures C05.fresh: result1 ==> fresh(result0.JTMessage.Body) && fresh(result0.ExtensionFields.TerminalData)
+//@   loop 1 invariant count: 0 <= receivedSum && receivedSum <= rangeindex + 1
+//@   loop 2 invariant idx: 0 <= i && i <= sum
+//@   loop 2 invariant fresh: fresh(data)
+//@   loop 2 decreases sum - i
